@@ -9,6 +9,9 @@ open Drv_util
 let run (toks : string list) : string =
   match toks with
   | "cw" :: _shared :: _order :: payloads ->
+    (* a keep-alive writer is one more writer of one more payload (any number of times): it does not change what
+       the other payloads look like at the peer *)
+    let payloads = L.filter (fun p -> p <> "KA") payloads in
     let chunks p = HBytes.chunks (nat_of_int 1024) (unhex p) in
     let evs = L.concat (L.mapi (fun i p ->
         let c = chunks p in
